@@ -10,3 +10,9 @@ import SqliteDissect.Properties.C07Rows
 import SqliteDissect.Generated.PyPage
 import SqliteDissect.Proofs.GenPage
 import SqliteDissect.Properties.GenPage
+import SqliteDissect.Proofs.CarveFreeblock
+import SqliteDissect.Properties.C09Freeblock
+import SqliteDissect.PyDict
+import SqliteDissect.Generated.PyHdrDiff
+import SqliteDissect.Proofs.GenHdrDiff
+import SqliteDissect.Properties.GenHdrDiff
